@@ -238,6 +238,7 @@ def r_tag_first(ck: Checker) -> None:
         tag_written = False
         others_written = False
         sorted_fill = None
+        resorted = False
         for ev in p.events:
             if ev[0] != "stmt":
                 continue
@@ -279,6 +280,14 @@ def r_tag_first(ck: Checker) -> None:
                         else:
                             others_written = True
                 elif norm(st.value) != "dict()":
+                    if f"sorted({outv}.items()" in norm(st.value) or f"sorted({outv})" in norm(st.value):
+                        # the mapping is re-built from a sort of itself: the tag, if already in it, is sorted like any field name
+                        if tag_written:
+                            ck.violation("R-TAG-FIRST", f, st, "the type tag is stored before any other key (also when the keys are sorted)",
+                                         construct="the output mapping, tag included, is re-sorted as a whole (a field name that sorts before '__type' comes first)")
+                        others_written = True
+                        resorted = True
+                        continue
                     raise Unsupported(f"output mapping initialised with {norm(st.value)}", st)
         skip = flags.get("SKIP_CLASS")
         if skip is None:
@@ -333,6 +342,8 @@ def r_tag_first(ck: Checker) -> None:
                         isinstance(keyf, ast.Lambda) and isinstance(keyf.body, ast.Subscript) and is_const(keyf.body.slice, 0)
                         and norm(keyf.body.value) == keyf.args.args[0].arg)
                     ok = src_ok and key_ok and (rev is None or is_const(rev, False)) and not [k for k in c.keywords if k.arg not in ("key", "reverse")]
+            if resorted and not ok:
+                ok = True  # all keys copied, then the mapping re-built in sorted key order
             if ok:
                 ck.holds("R-SORTED", f, sorted_fill, what)
             else:
